@@ -34,7 +34,8 @@ impl Prop for C03 {
         ]
     }
     fn worker(&self, ctx: &WorkerCtx) -> Box<dyn Worker> {
-        crate::worker::set_cpu_budget(60.0);
+        // checking a term of <= 60 nodes takes milliseconds; 4 s of CPU without an answer is a hang
+        crate::worker::set_cpu_budget(4.0);
         Box::new(W { small: ctx.phase == "small-terms", vm: None, uses: 0 })
     }
 }
@@ -92,37 +93,115 @@ impl Tm {
 }
 
 pub fn print_tm(t: &Tm) -> String {
+    let mut out = String::new();
+    pr(t, &mut out);
+    out
+}
+
+fn col(out: &str) -> usize {
+    out.len() - out.rfind('\n').map_or(0, |i| i + 1)
+}
+
+/// One-line printing, except `match`, whose alternatives go on their own lines, indented one
+/// column past the opening parenthesis (what the layout pass wants)
+fn pr(t: &Tm, out: &mut String) {
     use Tm::*;
     match t {
-        Var(x) => x.clone(),
-        Lam(x, b) => format!("(\\{} -> {})", x, print_tm(b)),
-        App(f, a) => format!("({} {})", print_tm(f), print_tm(a)),
-        Let(x, a, b) => format!("(let {} = {} in {})", x, print_tm(a), print_tm(b)),
-        Int(i) => format!("{}", i),
-        Str(s) => format!("\"{}\"", s),
-        Float(f) => format!("{}.5", f),
-        Add(a, b) => format!("({} #Int+ {})", print_tm(a), print_tm(b)),
-        Lt(a, b) => format!("({} #Int< {})", print_tm(a), print_tm(b)),
-        If(c, a, b) => format!("(if {} then {} else {})", print_tm(c), print_tm(a), print_tm(b)),
+        Var(x) => out.push_str(x),
+        Lam(x, b) => {
+            out.push_str(&format!("(\\{} -> ", x));
+            pr(b, out);
+            out.push(')');
+        }
+        App(f, a) => {
+            out.push('(');
+            pr(f, out);
+            out.push(' ');
+            pr(a, out);
+            out.push(')');
+        }
+        Let(x, a, b) => {
+            out.push_str(&format!("(let {} = ", x));
+            pr(a, out);
+            out.push_str(" in ");
+            pr(b, out);
+            out.push(')');
+        }
+        Int(i) => out.push_str(&format!("{}", i)),
+        Str(s) => out.push_str(&format!("\"{}\"", s)),
+        Float(f) => out.push_str(&format!("{}.5", f)),
+        Add(a, b) | Lt(a, b) => {
+            out.push('(');
+            pr(a, out);
+            out.push_str(if matches!(t, Add(..)) { " #Int+ " } else { " #Int< " });
+            pr(b, out);
+            out.push(')');
+        }
+        If(c, a, b) => {
+            out.push_str("(if ");
+            pr(c, out);
+            out.push_str(" then ");
+            pr(a, out);
+            out.push_str(" else ");
+            pr(b, out);
+            out.push(')');
+        }
         Rec(fs) => {
             if fs.is_empty() {
-                "{ }".to_string()
+                out.push_str("{ }");
             } else {
-                format!("{{ {} }}", fs.iter().map(|(n, t)| format!("{} = {}", n, print_tm(t))).collect::<Vec<_>>().join(", "))
+                out.push_str("{ ");
+                for (i, (n, t)) in fs.iter().enumerate() {
+                    if i > 0 {
+                        out.push_str(", ");
+                    }
+                    out.push_str(n);
+                    out.push_str(" = ");
+                    pr(t, out);
+                }
+                out.push_str(" }");
             }
         }
-        Proj(t, f) => format!("({}).{}", print_tm(t), f),
-        Tup(xs) => format!("({})", xs.iter().map(print_tm).collect::<Vec<_>>().join(", ")),
-        Arr(xs) => format!("[{}]", xs.iter().map(print_tm).collect::<Vec<_>>().join(", ")),
-        No => "No".to_string(),
-        Yes(t) => format!("(Yes {})", print_tm(t)),
-        // a one-line match with two alternatives does not survive the layout pass inside other
-        // expressions; the helper `opt_case` (typed exactly like the match rule) carries it
-        MatchOpt(s, a, x, b) => format!("(opt_case {} {} (\\{} -> {}))", print_tm(s), print_tm(a), x, print_tm(b)),
+        Proj(t, f) => {
+            out.push('(');
+            pr(t, out);
+            out.push_str(").");
+            out.push_str(f);
+        }
+        Tup(xs) | Arr(xs) => {
+            out.push(if matches!(t, Tup(_)) { '(' } else { '[' });
+            for (i, x) in xs.iter().enumerate() {
+                if i > 0 {
+                    out.push_str(", ");
+                }
+                pr(x, out);
+            }
+            out.push(if matches!(t, Tup(_)) { ')' } else { ']' });
+        }
+        No => out.push_str("No"),
+        Yes(t) => {
+            out.push_str("(Yes ");
+            pr(t, out);
+            out.push(')');
+        }
+        MatchOpt(s, a, x, b) => {
+            let c = col(out);
+            out.push_str("(match ");
+            pr(s, out);
+            out.push_str(" with\n");
+            out.push_str(&" ".repeat(c + 1));
+            out.push_str("| No -> ");
+            pr(a, out);
+            out.push('\n');
+            out.push_str(&" ".repeat(c + 1));
+            out.push_str(&format!("| Yes {} -> ", x));
+            pr(b, out);
+            out.push(')');
+        }
     }
 }
 
-const PRE: &str = "type Opt a = | No | Yes a\nlet opt_case o n y =\n    match o with\n    | No -> n\n    | Yes v -> y v\n";
+const PRE: &str = "type Opt a = | No | Yes a\n";
 
 fn program(t: &Tm) -> String {
     format!("{}{}\n", PRE, print_tm(t))
@@ -912,6 +991,78 @@ fn gen_tm(rng: &mut Rng, depth: u32, scope: &mut Vec<String>) -> Tm {
     }
 }
 
+/// Hindley-Milner stress idioms with random sub-terms plugged in: polymorphic lambdas as branch
+/// results in every kind of context, let-bound functions used at two types, generalisation under
+/// a lambda whose parameter is (or is not) involved, row-polymorphic functions at two records
+fn gen_idiom(rng: &mut Rng) -> Tm {
+    use Tm::*;
+    let bx = |t: Tm| Box::new(t);
+    let v = |n: &str| Var(n.to_string());
+    let small = |rng: &mut Rng, scope: &[&str]| {
+        let mut sc: Vec<String> = scope.iter().map(|s| s.to_string()).collect();
+        gen_tm(rng, 1, &mut sc)
+    };
+    let poly_lam = |rng: &mut Rng, p: &str| match rng.below(4) {
+        0 => Lam(p.into(), bx(v(p))),
+        1 => Lam(p.into(), bx(Tup(vec![v(p), v(p)]))),
+        2 => Lam(p.into(), bx(Add(bx(v(p)), bx(Int(1))))),
+        _ => Lam(p.into(), bx(Lam("q".into(), bx(v(p))))),
+    };
+    let branchy = |rng: &mut Rng| -> Tm {
+        let a = poly_lam(rng, "y");
+        let b = poly_lam(rng, "z");
+        if rng.chance(1, 2) {
+            MatchOpt(bx(if rng.chance(1, 2) { No } else { Yes(bx(Int(1))) }), bx(a), "w".into(), bx(b))
+        } else {
+            If(bx(Lt(bx(Int(1)), bx(Int(2)))), bx(a), bx(b))
+        }
+    };
+    match rng.below(9) {
+        0 => branchy(rng),
+        1 => Tup(vec![branchy(rng), small(rng, &[])]),
+        2 => App(bx(branchy(rng)), bx(small(rng, &[]))),
+        3 => Let("f".into(), bx(branchy(rng)), bx(Tup(vec![App(bx(v("f")), bx(Int(1))), App(bx(v("f")), bx(Str("s".into())))]))),
+        4 => {
+            // let-polymorphism at two types
+            let body = poly_lam(rng, "x");
+            Let("id".into(), bx(body), bx(Tup(vec![App(bx(v("id")), bx(Int(1))), App(bx(v("id")), bx(small(rng, &[])))])))
+        }
+        5 => {
+            // generalisation under a lambda: the let-bound function may or may not mention x
+            let inner = match rng.below(4) {
+                0 => Tup(vec![v("x"), v("y")]),
+                1 => Let("u".into(), bx(Arr(vec![v("y"), v("z")])), bx(App(bx(v("x")), bx(Tup(vec![v("z"), v("z")]))))),
+                2 => Let("u".into(), bx(Arr(vec![v("y"), v("x")])), bx(v("z"))),
+                _ => App(bx(v("x")), bx(v("y"))),
+            };
+            let g = Lam("y".into(), bx(Lam("z".into(), bx(inner))));
+            Lam("x".into(), bx(Let("g".into(), bx(g), bx(Tup(vec![App(bx(App(bx(v("g")), bx(Int(1)))), bx(Int(2))), App(bx(App(bx(v("g")), bx(Str("a".into())))), bx(Str("b".into())))])))))
+        }
+        6 => {
+            // row-polymorphic access at two record shapes
+            let f = Lam("r".into(), bx(Tup(vec![Proj(bx(v("r")), "a".into()), Proj(bx(v("r")), "b".into())])));
+            Let("f".into(), bx(f), bx(Tup(vec![
+                App(bx(v("f")), bx(Rec(vec![("a".into(), Int(1)), ("b".into(), Str("s".into()))]))),
+                App(bx(v("f")), bx(Rec(vec![("b".into(), small(rng, &[])), ("c".into(), Int(0)), ("a".into(), Float(1))]))),
+            ])))
+        }
+        7 => {
+            // a lambda-bound record used at two row shapes must be rejected; a let-bound one not
+            let use2 = Tup(vec![Proj(bx(v("r")), "a".into()), App(bx(Proj(bx(v("r")), "b".into())), bx(Int(1)))]);
+            if rng.chance(1, 2) {
+                Lam("r".into(), bx(use2))
+            } else {
+                Let("r".into(), bx(Rec(vec![("a".into(), small(rng, &[])), ("b".into(), poly_lam(rng, "k"))])), bx(use2))
+            }
+        }
+        _ => {
+            // nested lets with shadowing
+            let a = poly_lam(rng, "x");
+            Let("f".into(), bx(a), bx(Let("f".into(), bx(App(bx(v("f")), bx(v("f")))), bx(Tup(vec![App(bx(v("f")), bx(Int(3))), v("f")])))))
+        }
+    }
+}
+
 fn rename(t: &Tm, env: &mut Vec<(String, String)>, k: &mut u32) -> Tm {
     use Tm::*;
     let fresh = |k: &mut u32| {
@@ -993,7 +1144,7 @@ impl W {
 impl Worker for W {
     fn gen(&mut self, rng: &mut Rng, _idx: u64) -> Option<Value> {
         let depth = if self.small { 1 + rng.below(2) as u32 } else { 2 + rng.below(4) as u32 };
-        let t = gen_tm(rng, depth, &mut Vec::new());
+        let t = if !self.small && rng.chance(1, 8) { gen_idiom(rng) } else { gen_tm(rng, depth, &mut Vec::new()) };
         if t.size() > 60 {
             return None;
         }
@@ -1009,6 +1160,7 @@ impl Worker for W {
             Ok(t) => t,
             Err(e) => return CaseResult::inconclusive(0, format!("bad case: {}", e)),
         };
+        crate::worker::note_key(&case["key"]);
         let text = print_tm(&t);
         let h = hash_str(&text);
         let src = program(&t);
@@ -1037,6 +1189,7 @@ impl Worker for W {
             (Err(e), Gl::Accepted(gt)) => {
                 let mut v = viol("untypable-term-accepted", format!("W finds the term untypable ({}) but the checker accepts it with type `{}`", e, gt));
                 v.sig["model_reason"] = json!(e);
+                v.sig["reported_type"] = json!(read_gluon_type(gt).unwrap_or_default());
                 return v;
             }
             (Err(_), Gl::Rejected(_)) => {
@@ -1072,7 +1225,12 @@ impl Worker for W {
         let variants: Vec<(&str, String)> = vec![
             ("alpha-renamed", program(&renamed)),
             ("unused-binding-added", format!("{}let unused_c03 = 0\n{}\n", PRE, text)),
-            ("annotated-with-own-type", format!("{}let annotated_c03 : {} = {}\nannotated_c03\n", PRE, gt.replace(&format!("{}.", name), ""), text)),
+            ("annotated-with-own-type", {
+                let flat: String = gt.replace(&format!("{}.", name), "").split_whitespace().collect::<Vec<_>>().join(" ");
+                let mut out = format!("let annotated_c03 : {} = ", flat);
+                pr(&t, &mut out);
+                format!("{}{}\nannotated_c03\n", PRE, out)
+            }),
         ];
         let canon_g = read_gluon_type(&gt).unwrap_or_default();
         for (label, vsrc) in variants {
